@@ -15,6 +15,7 @@ from scrapli.exceptions import (
     ScrapliAuthenticationFailed,
     ScrapliConnectionError,
     ScrapliConnectionNotOpened,
+    ScrapliTimeout,
 )
 from scrapli.ssh_config import SSHKnownHosts
 from scrapli.transport.base import BasePluginTransportArgs, BaseTransportArgs, Transport
@@ -258,6 +259,10 @@ class Ssh2Transport(Transport):
         try:
             buf: bytes
             _, buf = self.session_channel.read(65535)
+        except ScrapliTimeout:
+            # raised by the timeout decorator's signal handler while we were blocked in the read
+            # above; the operation timed out, that is not a connection error
+            raise
         except Exception as exc:
             msg = (
                 "encountered EOF reading from transport; typically means the device closed the "
